@@ -170,6 +170,29 @@ def mod_wrap(x: f32[4], y: f32[8]):
         y[i] = x[(i + 3) % 4]
 
 
+@proc
+def neg_mod(x: f32[4], y: f32[4]):
+    for i in seq(0, 4):
+        y[i] = x[(i - 3) % 4]
+
+
+@proc
+def neg_div(n: size, k: index, x: f32[8], y: f32[n]):
+    assert k >= -3
+    assert k <= 0
+    assert n <= 4
+    for i in seq(0, n):
+        y[i] = x[(i + k - 1) / 2 + 2] + x[(i + k) % 3]
+
+
+@proc
+def neg_mod_arg(n: size, k: index, x: f32[5]):
+    assert k >= -4
+    assert k < 5
+    for i in seq(0, n):
+        x[(k - i) % 5] += 1.0
+
+
 # ---------------------------------------------------------------- allocations
 @proc
 def stage_tmp(n: size, x: f32[n], y: f32[n]):
@@ -433,7 +456,7 @@ def seq_par(n: size, m: size, x: f32[n, m]):
 PROCS = [
     axpy, scale2d, gemv, matmul, lowbound, two_loops_same, two_loops_dep, two_loops_difflo,
     consec_loops, zero_trip, idem_loop, nonidem_loop, stmts_indep, loop_carried, guard_inside,
-    if_chain, divmod_idx, neg_intermediate, mod_wrap, stage_tmp, tmp_vec, tmp2d, two_bufs,
+    if_chain, divmod_idx, neg_intermediate, mod_wrap, neg_mod, neg_div, neg_mod_arg, stage_tmp, tmp_vec, tmp2d, two_bufs,
     two_bufs_live, big_tmp, sliding, tmp8, tmp2x4, rows, cols, win_stmt, win_arg, scalar_ref,
     call_pt, nested_calls, cfg_rw, cfg_calls, cfg_dead, bindable, relu_k, sel_k, exprs,
     reduce_const, writes_merge, assign_then_use, seq_par,
